@@ -138,7 +138,7 @@ def gen_design(seed, profile='plain'):
     for k in range(total):
         outside = k >= nhier
         kind = 'normal' if outside else kinds[k]
-        ln = r.choice(work_names) if outside else lib_of[k]
+        ln = (r.choice(work_names) if prof['free_libs'] else 'work') if outside else lib_of[k]
         is_top = (k == nhier - 1)
         d = {'name': _uniq(r, DEF_NAMES, used_def[ln], False, prefix='orphan_' if outside else ''),
              'ports': _gen_ports(r, prof, 0 if (is_top or outside or kind == 'wireonly') else 1, 3, cn),
@@ -270,7 +270,7 @@ def validate_ad(ad):
         for b in d['ports'] + d['cables']:
             if b['width'] == 1 and not b.get('array') and b['base'] != 0:
                 errs.append('%r: scalar bundle %s with base %d' % (k, b['name'], b['base']))
-            if not 1 <= b['width'] <= 4:
+            if not 1 <= b['width'] <= 8:     # the generator stays within 1-4; mutated designs may exceed it by one
                 errs.append('%r: width of %s' % (k, b['name']))
         wires = set((c['name'], c['base'] + j) for c in d['cables'] for j in range(c['width']))
         pins = set(('port', pn, b) for pn, b in _pin_bits(d['ports']))
@@ -405,6 +405,78 @@ def ad_features(ad):
             'passthrough_nets': passthrough, 'depth': maxdepth, 'occurrences': sum(count.values()),
             'multi_depth': sum(1 for k, v in depth_of.items() if len(v) > 1),
             'unnamed': sum(1 for d in db.values() for kind in ('ports', 'cables', 'instances') for e in d[kind] if e.get('unnamed'))}
+
+
+def verilog_friendly(ad):
+    """A copy of the AD in the shape Verilog can express (verilog_support.rst: every port implies a cable of the same name and
+    shape wired to it bit by bit): each port gets its own cable; the net that held a port bit moves onto that cable bit; a net
+    tied to a second port keeps only the first (Verilog would need an assign); other cables are renamed away from port names."""
+    ad = copy.deepcopy(ad)
+    for L in ad['libraries']:
+        for d in L['definitions']:
+            if not d['cables'] and not d['instances']:
+                continue
+            pnames = set(p['name'] for p in d['ports'])
+            ren = {}
+            for c in d['cables']:
+                if c['name'] in pnames:
+                    ren[c['name']] = 'w_' + c['name']
+            taken = set(c['name'] for c in d['cables']) | pnames
+            for old_name, new_name in list(ren.items()):
+                while new_name in taken:
+                    new_name += '_'
+                taken.add(new_name)
+                ren[old_name] = new_name
+            for c in d['cables']:
+                c['name'] = ren.get(c['name'], c['name'])
+                c.pop('array', None)
+                if c['width'] == 1:
+                    c['base'] = 0
+            for n in d['nets']:
+                n['cable'] = ren.get(n['cable'], n['cable'])
+            newnets = []
+            owned = {}
+            for n in d['nets']:
+                ports_here = [ep for ep in n['endpoints'] if ep[0] == 'port']
+                if not ports_here:
+                    newnets.append(n)
+                    continue
+                first = ports_here[0]
+                eps = [ep for ep in n['endpoints'] if ep[0] != 'port' or ep is first]
+                owned[(first[1], first[2])] = eps
+            for p in d['ports']:
+                p.pop('array', None)
+                if p['width'] == 1:
+                    p['base'] = 0
+            pc = []
+            for p in d['ports']:
+                pc.append({'name': p['name'], 'width': p['width'], 'base': p['base']})
+                for k in range(p['width']):
+                    b = p['base'] + k
+                    eps = owned.get((p['name'], b)) or [['port', p['name'], b]]
+                    if ['port', p['name'], b] not in eps:
+                        eps = [['port', p['name'], b]] + eps
+                    newnets.append({'cable': p['name'], 'bit': b, 'endpoints': eps})
+            d['cables'] = pc + d['cables']
+            order = {c['name']: i for i, c in enumerate(d['cables'])}
+            d['nets'] = sorted(newnets, key=lambda n: (order[n['cable']], n['bit']))
+    # scalar ports had base 0 enforced above; endpoints of width-1 ports elsewhere must follow
+    db = defs_by_name(ad)
+    for L in ad['libraries']:
+        for d in L['definitions']:
+            insts = {i['name']: i for i in d['instances']}
+            for n in d['nets']:
+                for ep in n['endpoints']:
+                    if ep[0] == 'inst':
+                        rp = [p for p in db[tuple(insts[ep[1]]['ref'])]['ports'] if p['name'] == ep[2]][0]
+                        if rp['width'] == 1:
+                            ep[3] = 0
+                    else:
+                        rp = [p for p in d['ports'] if p['name'] == ep[1]][0]
+                        if rp['width'] == 1:
+                            ep[2] = 0
+    ad.setdefault('meta', {})['verilog_friendly'] = True
+    return ad
 
 
 # ------------------------------------------------------------------------------------------------ builder (public API only)
